@@ -216,6 +216,18 @@ func c20Source(r *rand.Rand) string {
 		// not every input has been through gofmt: number literals in the spellings it would rewrite
 		return string(src) + "\nconst (\n\tMask = 0XFF\n\tBig  = 1E9\n\tBin  = 0B101\n\tOct  = 0O17\n\tHexf = 0X1P4\n\tIm   = 1E3i\n)\n"
 	}
+	if r.IntN(5) == 0 {
+		// ... or has come from an editor that leaves carriage returns, runs of blank lines and blank
+		// lines at the end: the rewritten file is then shorter than the one that was read
+		s := string(src)
+		if r.IntN(2) == 0 {
+			s = strings.ReplaceAll(s, "\n\n", "\n\n\n\n\n")
+		}
+		if r.IntN(2) == 0 {
+			s = strings.ReplaceAll(s, "\n", "\r\n")
+		}
+		return s + strings.Repeat("\n", 40+r.IntN(600))
+	}
 	return string(src)
 }
 
